@@ -13,6 +13,8 @@ open Lean MhlModel MhlModel.Codec
 structure DState where
   tree : Node := .dir "root" [] none
   table : Std.HashMap String String := {}
+  /-- the generation written by the last `flatten` (the packing list) -/
+  packing : Option Generation := none
 
 def hexOf (b : Bytes) : String := String.ofList (hexOfBytes b)
 def unhexStr (s : String) : Bytes := (unhex s.toList).getD []
@@ -233,7 +235,14 @@ def step (st : DState) (j : Json) : DState × Json :=
     (st, outcomeJ (verifyDh env sub dop))
   | "flatten" =>
     let env := envOf st j sub
-    (st, outcomeJ (flatten env sub (jstrs j "i") (jstrs j "ii")))
+    let o := flatten env sub (jstrs j "i") (jstrs j "ii")
+    ({ st with packing := (o.written.head?.map (·.gen)).orElse fun _ => st.packing }, outcomeJ o)
+  | "verifypl" =>
+    let env := envOf st j sub
+    let vo : VerifyOpts := { ignoreCli := jstrs j "i", ignoreFile := jstrs j "ii" }
+    match st.packing with
+    | some g => (st, outcomeJ (verifyOrDiff env sub vo true (some g)))
+    | none => (st, Json.mkObj [("error", "no packing list")])
   | "info" =>
     match info sub with
     | .ok ls => (st, Json.mkObj [("exit", (0:Nat)), ("gens", Json.arr (ls.map fun (r, n) =>
